@@ -29,4 +29,21 @@ CHECKS = {
                 "threading.Condition are modelled/exercised, not verified. Blocking get_next_signal is exercised with real threads only.",
         "technique": "Lean 4 proof (inductive invariant over op sequences) + differential correspondence with the real class",
     },
+    "C19": {
+        "text": "Lean theorems over an abstract open()/close() program language (fuel-based semantics, state = flag, open links, device log; "
+                "fault plan = the k-th potentially-raising step raises kind κ): fault_beyond_end (∀ plan reduces to a finite table), "
+                "all_plans_of_table, consistent_of_wf (decidable syntactic discipline ⇒ consistent under every plan), retry_possible, "
+                "close_after_open, closed_no_io, double_open_close_refused. Per driver class (64 programs regenerated from the AST of "
+                "open/close on every run): ok_X : ∀ plan, Consistent (51 classes) or the kernel-checked negation witness bad_X plus exact_X "
+                "(the complete list of failing plans; 13 programs = 12 known findings), hist_X, recover_X, shape_X, all by decide +kernel. "
+                "Tie: every class is instantiated around recording fault-injecting transports; every transport call of the real open() × "
+                "{timeout, instrument error, OS error, junk reply} is swept, executed statements (line trace), exception, is_open() and link "
+                "flags are diffed against the model run under the corresponding plan; plus seeded open/close histories (with faulty opens) "
+                "and every RPC method on the closed instrument.",
+        "note": "Trusted: Lean kernel (axioms used: propext, Quot.sound); translator harness/tr_openprogs.py (conservative: whitelist of pure "
+                "statements, refuses source it does not understand) and the fake transport; `io` statements are one opaque potentially-raising "
+                "step (assumed not to touch flag/links — validated by the per-run correspondence); concrete transports, faults inside close(), "
+                "multiple faults and BaseException are out of scope; consistent_of_wf/close_after_open are stated for single-link drivers.",
+        "technique": "Lean 4 proof (generic lemmas + per-class decide +kernel on programs translated from source) + line-trace fault-sweep correspondence with the real drivers",
+    },
 }
